@@ -146,7 +146,7 @@ def table():
         print('| %s | %s | %s — needs: %s | %s |' % (
             sid, m.get('property'), (m.get('summary') or '').replace('|', '/')[:160],
             (m.get('needs_to_manifest') or '').replace('|', '/')[:160],
-            ', '.join(m.get('caught_by') or []) or '**missed**'))
+            ('superseded: ' + m['superseded_by']) if m.get('superseded_by') else (', '.join(m.get('caught_by') or []) or '**missed**')))
 
 
 if __name__ == '__main__':
